@@ -237,6 +237,13 @@ func runC03(c *Ctx) {
 		c.S.Count("fault.host.down")
 	}
 	cc := CPkt{Kind: KChannelCreate, HostKey: req.key, Verdict: verdict, Bytes: codec.ChannelCreate(req.name, req.port, req.declared)}
+	if req.kind == "exact" && c.T.Bool(1, 4) {
+		// the request also lists alternate names of the same resource (MS-TSGU allows up to three);
+		// only the first name is the one asked for
+		hn, _ := splitHostPort(req.key)
+		cc.Bytes, cc.Alts = codec.ChannelCreateAlts(strings.Trim(hn, "[]"), []string{"alias-of-it.test", "10.99.3.4", "second.test"}[:1+c.T.Choose(3)], req.port), true
+		warm += " request lists alternate names;"
+	}
 	payload := c.T.Bytes(1+c.T.Choose(100), 0x33)
 	p.Pkts = []CPkt{
 		PHandshake(tw.MC.ServerCaps, 1, 0),
